@@ -179,6 +179,15 @@ func scenarioC10(c *hlib.RunCtx) *hlib.Violation {
 		expanded[refstack.Expand(n)] = true
 		pool = append(pool, n)
 	}
+	if t.Bool(1, 3) {
+		// a few names of one hash bucket: concurrent writers then meet in one chain
+		for _, n := range refformat.CollidingNames(fmt.Sprintf("k%d/", t.Draw(20)), 2+t.Draw(3)) {
+			if !seen[n] {
+				seen[n] = true
+				pool = append(pool, n)
+			}
+		}
+	}
 	model := map[string]uint64{}
 
 	// Optionally start from a file written by the independent encoder.
